@@ -256,6 +256,7 @@ type objTarget struct {
 	log     []int
 	offAll  bool
 	hasAll  bool
+	onRun   func(id int) // re-entrant mode: called from inside every handler
 }
 
 const bystander = 99
@@ -289,6 +290,9 @@ func (t *objTarget) mkFunc(onName string, id int) reflect.Value {
 	ft := t.method(onName).Type().In(0)
 	return reflect.MakeFunc(ft, func([]reflect.Value) []reflect.Value {
 		t.log = append(t.log, id)
+		if t.onRun != nil && id != bystander {
+			t.onRun(id)
+		}
 		return nil
 	})
 }
@@ -408,6 +412,247 @@ func newTarget(spec string) target {
 		return newObjTarget(parts[1], "")
 	}
 	panic("unknown target " + spec)
+}
+
+// ---------------------------------------------------------------- occurrences in progress
+// dispatch performs one occurrence the way the library does - a range loop over what getAll
+// returned - and calls ran(id) from inside the loop, after each handler, so that whatever ran
+// does happens while the occurrence is still being dispatched.
+type reTarget interface {
+	target
+	dispatch(op hop, ran func(id int))
+}
+
+func (t *lsTarget) dispatch(op hop, ran func(id int)) {
+	t.s.ForEach(func(h *int) { ran(*h) }, false) // the real forEach: ranges over getAll's result
+}
+
+func callOne(rv reflect.Value) int {
+	hitLog = hitLog[:0]
+	rv.Call(nil)
+	if len(hitLog) != 1 {
+		panic("event handler did not report exactly once")
+	}
+	return hitLog[0]
+}
+
+func (t *esTarget) dispatch(op hop, ran func(id int)) {
+	t.s.Dispatch(evName(toInt(op[1])), func(rv reflect.Value) { ran(callOne(rv)) })
+}
+
+func (t *objTarget) dispatch(op hop, ran func(id int)) {
+	if t.family == "" {
+		err := sio.VerifDispatchEvent(t.obj, evName(toInt(op[1])), func(rv reflect.Value) { ran(callOne(rv)) })
+		if err != nil {
+			panic(err)
+		}
+		return
+	}
+	t.onRun = ran
+	if _, err := sio.VerifLifecycleOccurrence(t.obj, lower1(t.family)); err != nil {
+		panic(err)
+	}
+}
+
+type reFrame struct {
+	k      int
+	during [][]hop
+	pos    int
+}
+
+type reRun struct {
+	spec   string
+	t      reTarget
+	steps  [][]any
+	frames []*reFrame
+	nextK  int
+	conc   bool // calls made during a dispatch are made by another goroutine while the handler waits
+}
+
+// duringOf splits a fire op into the plain op and the calls to make at each loop position
+// (["fire", e, [[op..],[op..]]] / ["fire", [[op..],..]]; built in Go or read from JSON).
+func duringOf(op hop) (plain hop, during [][]hop) {
+	switch d := op[len(op)-1].(type) {
+	case [][]hop:
+		return op[:len(op)-1], d
+	case []any:
+		for _, pos := range d {
+			var ops []hop
+			if pos != nil {
+				for _, o := range pos.([]any) {
+					ops = append(ops, hop(o.([]any)))
+				}
+			}
+			during = append(during, ops)
+		}
+		return op[:len(op)-1], during
+	}
+	return op, nil
+}
+
+func (r *reRun) exec(op hop) {
+	if op[0].(string) != "fire" {
+		r.steps = append(r.steps, []any{"op", op})
+		r.t.apply(op)
+		return
+	}
+	plain, during := duringOf(op)
+	k := r.nextK
+	r.nextK++
+	r.steps = append(r.steps, []any{"begin", k, plain})
+	r.frames = append(r.frames, &reFrame{k: k, during: during})
+	r.t.dispatch(plain, r.ran)
+	r.frames = r.frames[:len(r.frames)-1]
+	r.steps = append(r.steps, []any{"end", k})
+}
+
+func (r *reRun) ran(id int) {
+	f := r.frames[len(r.frames)-1]
+	r.steps = append(r.steps, []any{"next", f.k, int(digitOf(r.spec, id)-'0') - 1})
+	i := f.pos
+	f.pos++
+	if i >= len(f.during) || len(f.during[i]) == 0 {
+		return
+	}
+	if !r.conc {
+		for _, o := range f.during[i] {
+			r.exec(o)
+		}
+		return
+	}
+	done := make(chan any)
+	go func() {
+		defer func() { done <- recover() }()
+		for _, o := range f.during[i] {
+			r.exec(o)
+		}
+	}()
+	if p := <-done; p != nil {
+		panic(p)
+	}
+}
+
+// runRe executes a call sequence whose occurrences carry the calls to make while they are being
+// dispatched; reports the flat list of what was executed, in order.
+func runRe(out *vk.Out, spec string, ops []hop, conc bool) {
+	r := &reRun{spec: spec, t: newTarget(spec).(reTarget), conc: conc}
+	panicked, msg, byst := false, "", true
+	func() {
+		defer func() {
+			if p := recover(); p != nil {
+				panicked, msg = true, fmt.Sprint(p)
+			}
+		}()
+		for _, o := range ops {
+			r.exec(o)
+		}
+		if ot, ok := r.t.(*objTarget); ok {
+			ot.onRun = nil
+		}
+		byst = r.t.finish()
+	}()
+	out.Put(map[string]any{"re": 1, "target": spec, "conc": conc, "ops": ops, "steps": r.steps,
+		"panic": panicked || !byst, "panicmsg": msg, "bystander": byst, "menu": evMenuFval})
+}
+
+func isEvSpec(spec string) bool { return spec == "es" || strings.HasPrefix(spec, "eapi") }
+
+// reentFamily: registration prefixes x one occurrence during which one call is made at one
+// position (by the handler itself, or by another goroutine while the handler waits) x closing
+// occurrences.
+func reentFamily(spec string) [][]hop {
+	var prefixes [][]hop
+	var during []hop
+	var fire func(d [][]hop) hop
+	var closing []hop
+	switch {
+	case spec == "ls":
+		prefixes = [][]hop{
+			{{"on", 0}, {"on", 1}, {"on", 2}},
+			{{"on", 0}, {"on", 1}, {"once", 2}},
+			{{"onsub", 0}, {"on", 1}, {"on", 2}},
+			{{"on", 0}, {"on", 0}, {"on", 1}},
+		}
+		during = []hop{{"off", []int{0}}, {"off", []int{1}}, {"off", []int{2}}, {"off", []int{}}, {"off", []int{0, 1}},
+			{"on", 1}, {"once", 0}, {"offall"}, {"offsub", 0}, {"offsubs"}, {"onsub", 1}, {"fire"}}
+		fire = func(d [][]hop) hop { return hop{"fire", d} }
+		closing = []hop{{"fire"}, {"fire"}}
+	case isEvSpec(spec):
+		prefixes = [][]hop{
+			{{"on", 0, 0}, {"on", 0, 1}, {"on", 0, 2}},
+			{{"on", 0, 0}, {"on", 0, 1}, {"once", 0, 2}},
+			{{"on", 0, 0}, {"on", 0, 0}, {"on", 0, 1}},
+			{{"on", 0, 0}, {"on", 0, 1}, {"on", 1, 2}, {"on", 0, 2}},
+		}
+		during = []hop{{"off", 0, []int{0}}, {"off", 0, []int{1}}, {"off", 0, []int{2}}, {"off", 0, []int{}},
+			{"off", 0, []int{0, 1}}, {"off", 0, []int{-1}}, {"on", 0, 1}, {"once", 0, 0}, {"offall"},
+			{"off", 1, []int{2}}, {"on", 1, 0}, {"fire", 0}, {"fire", 1}}
+		fire = func(d [][]hop) hop { return hop{"fire", 0, d} }
+		closing = []hop{{"fire", 0}, {"fire", 1}, {"fire", 0}}
+	default: // public lifecycle family
+		prefixes = [][]hop{
+			{{"on", 0}, {"on", 1}, {"on", 2}},
+			{{"on", 0}, {"on", 1}, {"once", 2}},
+			{{"once", 0}, {"on", 1}, {"on", 1}},
+		}
+		during = []hop{{"off", []int{}}, {"off", []int{0}}, {"on", 1}, {"once", 0}, {"fire"}}
+		if !strings.HasPrefix(spec, "api:srv") {
+			during = append(during, hop{"offall"})
+		}
+		fire = func(d [][]hop) hop { return hop{"fire", d} }
+		closing = []hop{{"fire"}, {"fire"}}
+	}
+	var res [][]hop
+	for _, p := range prefixes {
+		for pos := 0; pos < 3; pos++ {
+			for _, d := range during {
+				dl := make([][]hop, pos+1)
+				dl[pos] = []hop{d}
+				seq := append(append([]hop{}, p...), fire(dl))
+				seq = append(seq, closing...)
+				res = append(res, seq)
+			}
+		}
+	}
+	return res
+}
+
+// randomRe: random sequences whose occurrences carry random calls (and nested occurrences).
+func randomRe(spec string, r *vk.Rand, maxLen, depth int) []hop {
+	ops := randomOps(spec, r, maxLen)
+	for i, o := range ops {
+		if o[0].(string) != "fire" || r.Intn(3) == 0 {
+			continue
+		}
+		var dl [][]hop
+		for pos := 0; pos < 4; pos++ {
+			if r.Intn(2) == 0 || depth <= 0 {
+				dl = append(dl, nil)
+				continue
+			}
+			dl = append(dl, randomRe(spec, r, 2, depth-1))
+		}
+		ops[i] = append(append(hop{}, o...), dl)
+	}
+	return ops
+}
+
+func reentMode(out *vk.Out, spec string, seed uint64, n int) {
+	for _, seq := range reentFamily(spec) {
+		runRe(out, spec, seq, false)
+	}
+	if spec == "ls" || isEvSpec(spec) {
+		for _, seq := range reentFamily(spec) {
+			runRe(out, spec, seq, true)
+		}
+	}
+	for _, c := range []byte(spec) {
+		seed = seed*1099511628211 + uint64(c)
+	}
+	r := vk.NewRand(seed ^ 0x5eed)
+	for i := 0; i < n; i++ {
+		runRe(out, spec, randomRe(spec, r.Fork(), 8, 2), i%3 == 0)
+	}
 }
 
 // ---------------------------------------------------------------- running one sequence
@@ -806,6 +1051,7 @@ func handlersMain(args []string) error {
 	maxLen := fs.Int("maxlen", 30, "")
 	goroutines := fs.Int("goroutines", 16, "")
 	opsJSON := fs.String("ops", "", "mode replay: the call sequence as JSON")
+	concFlag := fs.Int("reent", -1, "mode replay: -1 plain sequence, 0 re-entrant call tree, 1 calls made by another goroutine")
 	outp := fs.String("out", "-", "")
 	fs.Parse(args)
 	if err := checkMenu(); err != nil {
@@ -824,6 +1070,8 @@ func handlersMain(args []string) error {
 			randomMode(out, sp, *seed, *n, *maxLen)
 		case "race":
 			raceMode(out, sp, *goroutines, *n)
+		case "reent":
+			reentMode(out, sp, *seed, *n)
 		case "replay":
 			var raw [][]any
 			if err := json.Unmarshal([]byte(*opsJSON), &raw); err != nil {
@@ -833,7 +1081,11 @@ func handlersMain(args []string) error {
 			for i, o := range raw {
 				ops[i] = hop(o)
 			}
-			emitCase(out, sp, ops)
+			if *concFlag >= 0 {
+				runRe(out, sp, ops, *concFlag == 1)
+			} else {
+				emitCase(out, sp, ops)
+			}
 		default:
 			return fmt.Errorf("unknown mode %s", *mode)
 		}
